@@ -29,17 +29,21 @@ echo "== demo with change (must fail)"
 go test -vet=off -count=1 -run "$RUN" $PKG > $S/demo_with_change.txt 2>&1; DW=$?
 tail -3 $S/demo_with_change.txt
 echo "== demo without change (must pass)"
-git stash -q -- $(git diff --name-only -- . ':!*_test.go')
+FILES=$(git diff --name-only -- . ':!*_test.go')
+git diff -- $FILES > /tmp/seedpatch.$$; git checkout -- $FILES
 go test -vet=off -count=1 -run "$RUN" $PKG > $S/demo_without_change.txt 2>&1; DO=$?
 tail -2 $S/demo_without_change.txt
-git stash pop -q
+git apply /tmp/seedpatch.$$; rm -f /tmp/seedpatch.$$
 echo "suite_fail_lines=$SUITE demo_with=$DW demo_without=$DO"
 echo "== my check against the change"
-PVMC_REPO=$W /verif/check.sh $P $TIER > $S/check_output.txt 2>&1; RC=$?
+# the check runs from a private copy of /verif, so that evidence/ and replays/ of /verif itself are never touched
+V=/tmp/vs.$$; rm -rf $V; mkdir -p $V
+rsync -a --exclude .git --exclude bin --exclude seeded --exclude evidence --exclude replays --exclude 'quick_*' /verif/ $V/
+mkdir -p $V/evidence
+PVMC_REPO=$W $V/check.sh $P $TIER > $S/check_output.txt 2>&1; RC=$?
 grep "signature\|^$P \|HARNESS\|KNOWN\|^VIOLATION" $S/check_output.txt | cut -c1-250 | head -12
 echo "check_exit=$RC"
-rm -rf /verif/bin/mc-alt-* /verif/bin/pvmc-alt-* /verif/replays
-git -C /verif checkout -- evidence 2>/dev/null
+rm -rf $V
 cat > $S/meta.json <<EOT
 {"id":"$ID","property":"$P","worktree_base":"$(git -C $W rev-parse --short HEAD)","suite_fail_lines_with_change":$SUITE,"demo_exit_with_change":$DW,"demo_exit_without_change":$DO,"check_cmd":"PVMC_REPO=<worktree> ./check.sh $P $TIER","check_exit":$RC}
 EOT
